@@ -293,7 +293,32 @@ let execper_cmd (toks : string list) : string option =
        | None -> None)
   | _ -> None
 
-let handlers : (string list -> string option) list ref = ref [index_cmd; tree_cmd; exec_cmd; exectsm_cmd; execper_cmd; mem_cmd]
+let cnt_str (k : counters) =
+  Printf.sprintf "%s %s %s %s %s %s %s" (zs k.c_p2m) (zs k.c_m2m) (zs k.c_m2l) (zs k.c_l2l) (zs k.c_l2p) (zs k.c_p2p) (zs k.c_inner)
+
+(* execcnt d per H B mode stop nsplit m_1..m_nsplit N nums : one kernel copy per mask *)
+let execcnt_cmd (toks : string list) : string option =
+  match toks with
+  | "execcnt" :: d :: per :: h :: b :: mode :: stop :: nf :: rest ->
+      let nf = int_of_string nf in
+      let masks = take nf rest in
+      let rest = drop nf rest in
+      (match rest with
+       | n :: nums ->
+         (match parse_tree ("tree" :: d :: per :: h :: b :: mode :: n :: nums) with
+          | Some (d, per, _h, t, _idx, _) ->
+              let dn = nat_of_int d in
+              let traces = List.map (fun f -> execute dn per (z_of_string stop) (z_of_string f) t) masks in
+              let ks = List.map count_trace traces in
+              let all = List.concat traces in
+              Some (dump_tree t ^ " || " ^ String.concat " ; " (List.map call_str all)
+                    ^ " || K " ^ String.concat " | " (List.map cnt_str ks)
+                    ^ " || F " ^ cnt_str (merge_counters ks) ^ " || B " ^ cnt_str (merge_counters (List.rev ks)))
+          | None -> None)
+       | [] -> None)
+  | _ -> None
+
+let handlers : (string list -> string option) list ref = ref [index_cmd; tree_cmd; exec_cmd; exectsm_cmd; execper_cmd; execcnt_cmd; mem_cmd]
 
 let () =
   let ic = open_in Sys.argv.(1) in
